@@ -189,7 +189,9 @@ Example C16_set_algebra_example :
 Proof. vm_compute. repeat split. Qed.
 
 (* ================= ir.modules: the mutable-sequence interface =================
-   every effect is the list operation applied to the list from which a moved module was first removed *)
+   append / extend / the parent setter: the list operation applied to the list from which a moved module was first removed;
+   insert and item / slice assignment: the built-in places the values, then every value just placed stays only where it was
+   placed last (a module that sat elsewhere in this list is moved, one owned by another IR leaves that IR) *)
 
 Theorem C16_modlist_append : forall w known ir v, reachable_k w known -> op_okb w known (OModAppend ir v) = true ->
   exists w', step w (OModAppend ir v) = Ok w' /\
@@ -201,16 +203,65 @@ Proof.
   intros w known ir v R. exact (ModListProofs.append_effect w known ir v (reach_forest w known R) (reach_cache w known R)).
 Qed.
 
-(* insert(i, v): i clamped into [0, len] as list.insert does *)
+(* insert(i, v) is `modules[i:i] = [v]` (the sequence interface's own definition of insert), i clamped into [0, len] of the list
+   as it is BEFORE the call, as list.insert does: a module that is not in the list is inserted as the built-in does (and leaves its
+   previous owner); a module that is in the list already is moved to where the built-in insert puts it
+   (C16_modlist_insert_member_moves) *)
 Theorem C16_modlist_insert : forall w known ir i v, reachable_k w known -> op_okb w known (OModInsert ir i v) = true ->
-  let l := remove_id v (kids w ir) in
+  let l := kids w ir in
+  let k := clamp_insert i (length l) in
   exists w', step w (OModInsert ir i v) = Ok w' /\
-    kids w' ir = insert_at (clamp_insert i (length l)) v l /\
+    kids w' ir = assign_slice l k k [v] /\
+    (~ In v l -> kids w' ir = insert_at k v l) /\
     (forall x, x <> ir -> kids w' x = remove_id v (kids w x)) /\
     (forall x, nodes w' x = if x =? v then Some (with_par (getn w v) (Some ir)) else nodes w x) /\
     par w' v = Some ir.
 Proof.
-  intros w known ir i v R. exact (ModListProofs.insert_effect w known ir i v (reach_forest w known R) (reach_cache w known R)).
+  intros w known ir i v R G l k.
+  destruct (ModListProofs.insert_effect w known ir i v (reach_forest w known R) (reach_cache w known R) G)
+    as (w' & Hs & Hk & Ho & Hn & Hp).
+  exists w'. split; [exact Hs|]. split; [exact Hk|]. split; [|split; [exact Ho|split; [exact Hn|exact Hp]]].
+  intros Hv. rewrite Hk. apply ModListProofs.insert_list_fresh. exact Hv.
+Qed.
+
+(* insert(i, v) of a module that is in the list already: no duplicate, the same members, the others keep their relative order;
+   v lands in front of what sat at position k of the old list -- at k when it came from k or later, at k - 1 when it came from
+   before k (its old copy no longer counts); inserting it in front of itself or right behind itself leaves the list as it was;
+   no other list, no node (hence no owner) changes *)
+Theorem C16_modlist_insert_member_moves : forall w known ir i v, reachable_k w known ->
+  op_okb w known (OModInsert ir i v) = true -> In v (kids w ir) ->
+  let l := kids w ir in
+  let k := clamp_insert i (length l) in
+  exists w', step w (OModInsert ir i v) = Ok w' /\
+    kids w' ir = assign_slice l k k [v] /\
+    NoDup (kids w' ir) /\ (forall x, In x (kids w' ir) <-> In x l) /\
+    filter (fun x => negb (x =? v)) (kids w' ir) = filter (fun x => negb (x =? v)) l /\
+    (forall j, index_of v l = Some j -> nth_error (kids w' ir) (k - (if (j <? k)%nat then 1 else 0)) = Some v) /\
+    (forall j, index_of v l = Some j -> k = j \/ k = S j -> kids w' ir = l) /\
+    (forall x, x <> ir -> kids w' x = kids w x) /\
+    (forall x, nodes w' x = nodes w x).
+Proof.
+  intros w known ir i v R G Hv l k. pose proof (reach_forest w known R) as F.
+  destruct (ModListProofs.insert_effect_member w known ir i v F (reach_cache w known R) G Hv)
+    as (w' & Hs & Hk & H1 & H2 & H3 & H4 & H5 & H6).
+  exists w'. split; [exact Hs|]. split; [exact Hk|]. split; [exact H1|]. split; [exact H2|]. split; [exact H3|].
+  split; [exact H4|]. split; [|split; [exact H5|exact H6]].
+  intros j Hj Hkj. rewrite Hk. exact (ModListProofs.insert_list_moved_same l k v j (f_nodup w known F ir) Hj Hkj).
+Qed.
+
+(* the list alone (any list without repetitions, any position): the two closed forms of l[k:k] = [v] *)
+Theorem C16_modlist_insert_list : forall (l : list id) k v,
+  (~ In v l -> assign_slice l k k [v] = insert_at k v l) /\
+  assign_slice l (length l) (length l) [v] = remove_id v l ++ [v] /\
+  (NoDup l -> In v l ->
+     NoDup (assign_slice l k k [v]) /\ (forall x, In x (assign_slice l k k [v]) <-> In x l) /\
+     filter (fun x => negb (x =? v)) (assign_slice l k k [v]) = filter (fun x => negb (x =? v)) l) /\
+  (forall j, NoDup l -> index_of v l = Some j -> (k <= length l)%nat ->
+     nth_error (assign_slice l k k [v]) (k - (if (j <? k)%nat then 1 else 0)) = Some v).
+Proof.
+  intros l k v. split; [exact (ModListProofs.insert_list_fresh l k v)|]. split; [exact (ModListProofs.insert_list_end l v)|].
+  split; [exact (ModListProofs.insert_list_moved l k v)|].
+  intros j. exact (ModListProofs.insert_list_moved_position l k v j).
 Qed.
 
 (* extend(vs) / += : append one after the other; for fresh distinct modules this is l ++ vs *)
@@ -783,6 +834,42 @@ Proof.
   - vm_compute. repeat split.
 Qed.
 
+(* non-vacuity of C16_modlist_insert / C16_modlist_insert_member_moves: IR 1 with ir.modules = [3; 4; 5], module 6 unowned, module 7
+   owned by IR 2.  insert(1, first) and insert(0, first) leave the list as it is; insert(2, first) = [second; first; third] (the
+   index counts the list as it is before the call: list.insert gives [3; 4; 3; 5], the old copy goes); insert(3, first) and
+   insert(99, first) move it to the end; insert(0, last) to the front; negative indexes count from the end of the unshortened list;
+   a fresh module is inserted as the built-in does; a module of IR 2 leaves IR 2; owners of the members do not change *)
+Example C16_modlist_insert_member_example :
+  let h := [ONew 1 KIR 101 None 0 0 0 PNone; ONew 2 KIR 102 None 0 0 0 PNone; ONew 3 KMod 103 None 0 0 0 PNone;
+            ONew 4 KMod 104 None 0 0 0 PNone; ONew 5 KMod 105 None 0 0 0 PNone; ONew 6 KMod 106 None 0 0 0 PNone;
+            ONew 7 KMod 107 None 0 0 0 PNone; OModExtend 1 [3; 4; 5]; OModAppend 2 7] in
+  let w := fst (run_guarded w0 [] h) in
+  let known := snd (run_guarded w0 [] h) in
+  let after o := let w' := step' w o in (kids w' 1, kids w' 2, map (par w') [3; 4; 5; 6; 7]) in
+  let outcome o := (op_okb w known o, match step w o with Ok _ => None | Err e => Some e end) in
+  reachable_k w known /\ after (OTouch 1) = ([3; 4; 5], [7], [Some 1; Some 1; Some 1; None; Some 2]) /\
+  (In 3 (kids w 1) /\ index_of 3 (kids w 1) = Some 0%nat /\ index_of 5 (kids w 1) = Some 2%nat) /\
+  map outcome [OModInsert 1 1 3; OModInsert 1 2 3; OModInsert 1 0 5; OModInsert 1 1 6; OModInsert 1 1 7] =
+    [(true, None); (true, None); (true, None); (true, None); (true, None)] /\
+  after (OModInsert 1 0 3) = after (OTouch 1) /\ after (OModInsert 1 1 3) = after (OTouch 1) /\
+  after (OModInsert 1 2 3) = ([4; 3; 5], [7], [Some 1; Some 1; Some 1; None; Some 2]) /\
+  after (OModInsert 1 3 3) = ([4; 5; 3], [7], [Some 1; Some 1; Some 1; None; Some 2]) /\
+  after (OModInsert 1 99 3) = ([4; 5; 3], [7], [Some 1; Some 1; Some 1; None; Some 2]) /\
+  after (OModInsert 1 0 5) = ([5; 3; 4], [7], [Some 1; Some 1; Some 1; None; Some 2]) /\
+  after (OModInsert 1 1 5) = ([3; 5; 4], [7], [Some 1; Some 1; Some 1; None; Some 2]) /\
+  after (OModInsert 1 (-1) 3) = ([4; 3; 5], [7], [Some 1; Some 1; Some 1; None; Some 2]) /\
+  after (OModInsert 1 (-2) 5) = ([3; 5; 4], [7], [Some 1; Some 1; Some 1; None; Some 2]) /\
+  after (OModInsert 1 (-99) 4) = ([4; 3; 5], [7], [Some 1; Some 1; Some 1; None; Some 2]) /\
+  after (OModInsert 1 1 6) = ([3; 6; 4; 5], [7], [Some 1; Some 1; Some 1; Some 1; Some 2]) /\
+  after (OModInsert 1 1 7) = ([3; 7; 4; 5], [], [Some 1; Some 1; Some 1; None; Some 1]) /\
+  after (OModAppend 1 3) = ([4; 5; 3], [7], [Some 1; Some 1; Some 1; None; Some 2]) /\
+  (assign_slice [3; 4; 5] 2 2 [3], insert_at 2 3 [3; 4; 5]) = ([4; 3; 5], [3; 4; 3; 5]).
+Proof.
+  cbv zeta. split.
+  - eexists. symmetry. apply surjective_pairing.
+  - vm_compute. repeat split. left. reflexivity.
+Qed.
+
 Print Assumptions C16_set_add.
 Print Assumptions C16_set_discard.
 Print Assumptions C16_set_remove.
@@ -799,6 +886,8 @@ Print Assumptions C16_set_comparisons.
 Print Assumptions C16_set_algebra_example.
 Print Assumptions C16_modlist_append.
 Print Assumptions C16_modlist_insert.
+Print Assumptions C16_modlist_insert_member_moves.
+Print Assumptions C16_modlist_insert_list.
 Print Assumptions C16_modlist_extend.
 Print Assumptions C16_modlist_extend_all_of_another.
 Print Assumptions C16_modlist_extend_self.
@@ -838,3 +927,4 @@ Print Assumptions C16_keyerror_exactly_builtin.
 Print Assumptions C16_example.
 Print Assumptions C16_same_list_assignment_example.
 Print Assumptions C16_modlist_setslice_extended_example.
+Print Assumptions C16_modlist_insert_member_example.
